@@ -26,7 +26,7 @@ RULE = ("generator W (virtual workspaces, depth 0-3, conftest kinds, override ch
         "site-packages providers) with autouse fixtures sprinkled in; one evaluation = one definition's (CLI count, server "
         "reference list) comparison or one CLI process run; non-trivial = the workspace has an unused or an autouse fixture or "
         "an override chain; distinct = distinct multiset of feature tags")
-ASSUMPTIONS = ["part A: virtual workspaces, sequential analysis order", "part B: project files only (no virtualenv), ASCII",
+ASSUMPTIONS = ["part A: virtual workspaces, sequential analysis order", "part B: project files, in a third of the trees below an editable install's source root (venv with .pth + direct_url.json); ASCII",
                "text / JSON rendering (serde_json, colored) trusted; the driver parses the rendered output"]
 
 
@@ -162,6 +162,13 @@ def explore_binary(r, h1, rnd, n, stdlib):
         for i in range(n):
             ws = make_ws(1000 + i, rnd)
             root = os.path.join(base, "w%d" % i)
+            mono = None
+            if i % 3 == 1:
+                # a monorepo whose ROOT is installed editable into the venv of the scanned service
+                # directory (`pip install -e ../..`): the workspace lies strictly inside the editable
+                # install's source root, and its files stay project files
+                mono = os.path.join(root, "mono")
+                root = os.path.join(mono, "services", "api")
             wroot = "/" + ws["order"][0].split("/")[1]
             project = {}
             for p in ws["order"]:
@@ -173,6 +180,14 @@ def explore_binary(r, h1, rnd, n, stdlib):
                 open(q, "w").write(ws["files"][p])
             if not project:
                 continue
+            if mono:
+                spk = os.path.join(root, ".venv", "lib", "python3.12", "site-packages")
+                os.makedirs(os.path.join(spk, "mono-0.1.0.dist-info"), exist_ok=True)
+                open(os.path.join(spk, "mono-0.1.0.dist-info", "direct_url.json"), "w").write(
+                    json.dumps({"url": "file://" + mono, "dir_info": {"editable": True}}))
+                open(os.path.join(spk, "__editable__.mono-0.1.0.pth"), "w").write(mono + "\n")
+                open(os.path.join(mono, "pyproject.toml"), "w").write("[project]\nname = \"mono\"\nversion = \"0.1.0\"\n")
+                kinds["workspace_inside_editable_root"] += 1
             obs, _ = core.run_h1(h1, [{"id": 0, "ops": [{"op": "scan", "path": root}, {"op": "cli"}]}], "C20_scan")
             lib = obs[0]["obs"][1]
             pre = root + "/"
@@ -189,6 +204,12 @@ def explore_binary(r, h1, rnd, n, stdlib):
             def fail(why, **kw):
                 fails.append(dict({"why": why, "files": project, "lib": lib}, **kw))
 
+            for x in lib["refs"]:
+                d = x["def"]
+                if d["third"] and d["path"].startswith(pre) and "/.venv/" not in d["path"] and "site-packages" not in d["path"]:
+                    fail("a fixture defined in a project file of the scanned workspace is classified third-party (it then drops out of `fixtures unused` and the project symbols)",
+                         definition=d)
+                    break
             for cmd in (["fixtures", "unused", root, "--format", "json"], ["fixtures", "unused", root],
                         ["fixtures", "list", root], ["fixtures", "list", root, "--skip-unused"],
                         ["fixtures", "list", root, "--only-unused"]):
@@ -289,7 +310,9 @@ def run(r):
     for k, b in enumerate([b for b in bad if not b.get("order_sensitive_class")][:3]):
         r.violation(dict({"property": PID, "part": "binary"}, **b), "cli_%d" % k)
     r.notes.append("part B: %d CLI process runs on %d trees, %d unused entries seen, %d discrepancies inside the listed order-sensitive class"
-                   % (nruns, kinds["trees"], kinds["unused_entries"], len(known_hits)))
+                   % (nruns, kinds["trees"], kinds["unused_entries"], len(known_hits))
+                   + "; %d trees lie strictly inside an editable install's source root (monorepo root installed into the service's venv); %d server trees, %d server reference requests"
+                   % (kinds["workspace_inside_editable_root"], kinds["server_trees"], kinds["server_reference_requests"]))
     return runner.drive_ws(r, sys.modules[__name__])
 
 
